@@ -7,6 +7,7 @@ import multiprocessing as mp
 from .. import core, gen, impl, progen
 
 SPECIAL_FROM = 0
+LISTS_FROM = 0
 
 TRUST = [
     "Model/GlobalState.v: the compiler proper is an oracle that uses the constexpr evaluator only by calling it (hypothesis comp_ext); the evaluator is deterministic",
@@ -89,6 +90,14 @@ def request_pool(rng, tier):
     SPECIAL_FROM = len(pool) - 9
     for p in progen.generate(rng, 6 if tier == "quick" else 40):
         pool.append((p.text(), V(append_version=False, compact=rng.random() < 0.5, inline_functions=rng.random() < 0.5)))
+    # a constexpr function returning a list: one request indexes it at run time (odd length of 7 or more: jump
+    # table with padding), another one iterates over it; the cached result belongs to neither
+    global LISTS_FROM
+    LISTS_FROM = len(pool)
+    tab = "@constexpr\ndef table():\n    return [3, 1, 4, 1, 5, 9, 2]\n"
+    pool.append((tab + "T = table()\ndb.Setting = T[d0.Setting]\n", V(append_version=False)))
+    pool.append((tab + "for v in table():\n    db.Setting = v\n", V(append_version=False)))
+    pool.append((tab + "T = table()\nd1.Setting = T[d0.On] + T[d1.On]\n", V(append_version=False, compact=True)))
     return pool
 
 
@@ -119,6 +128,9 @@ def main(tier, seed):
     sp_ = list(range(SPECIAL_FROM, SPECIAL_FROM + 9))
     histories.append(sp_ + sp_[::-1])
     histories.append([sp_[0], sp_[1], sp_[0], sp_[1]] + [sp_[2], sp_[3], sp_[2], sp_[4], sp_[5], sp_[2], sp_[6], sp_[7], sp_[6], sp_[8]])
+    la, lb, lc = LISTS_FROM, LISTS_FROM + 1, LISTS_FROM + 2
+    histories.append([la, lb, la, lc, lb])
+    histories.append([lb, lc, lb, la, lb])
     with ctx.Pool(6, maxtasksperchild=1) as p:
         served = p.map(serve_history, [[pool[i] for i in h] for h in histories], chunksize=1)
     total = 0
